@@ -263,6 +263,13 @@ func Solve(o *Obligation, cfg *SolverCfg, idx int) {
 	}
 	var results []solverRes
 	decided := o.Status != ""
+	if decided && cfg.AllAgree {
+		// already answered by the short stage: the others get 15 seconds to contradict it
+		go func() {
+			time.Sleep(15 * time.Second)
+			cancel()
+		}()
+	}
 	for i := 0; i < n; i++ {
 		r := <-ch
 		results = append(results, r)
@@ -270,6 +277,12 @@ func Solve(o *Obligation, cfg *SolverCfg, idx int) {
 			decided = true
 			if !cfg.AllAgree {
 				cancel()
+			} else {
+				// cross-check: the other solvers get 15 more seconds to contradict the answer
+				go func() {
+					time.Sleep(15 * time.Second)
+					cancel()
+				}()
 			}
 		}
 	}
